@@ -1,7 +1,7 @@
 SPECIFICATION MCSpec
 CONSTANTS Rad = 1
           StrLens = {0}
-          NCalls = 9
+          NCalls = 8
 INVARIANTS MemoIsRef
 PROPERTIES PureMC
 CHECK_DEADLOCK FALSE
